@@ -405,6 +405,17 @@ def check_runs(case):
           run, [v.seen for v in declared_validators]))
       break
   ctx.cancel.set()
+  if got:
+    # a delivered record is final: declaring one more test diagnoser for the next run must not show up in it
+    n_diag = len(got[-1].diagnosers)
+    noop = htf.TestDiagnoser(progs.result_enum(), name='vf_added_later')(lambda rec: None)
+    try:
+      test.add_test_diagnosers(noop)
+    except Exception:  # pylint: disable=broad-except
+      pass
+    if len(got[-1].diagnosers) != n_diag:
+      r.bad('C11/runs/earlier-record-changed-by-later-declaration', 'the record of the last run listed %d test diagnosers, after add_test_diagnosers() on the Test it lists %d' % (
+          n_diag, len(got[-1].diagnosers)))
   transient = any(pl.get('ctor') == 'raise-once' for pl in prog.get('plugs') or [])
   if transient:
     # run 0 suffered the fault; the later runs must not: compare them with each other, and none of them may blame the plug
